@@ -16,7 +16,10 @@ from vlib import Result, Undecided
 BASE = 1514764800                      # 2018-01-01T00:00:00Z, a Monday: origin of the spec's integer time
 ZONES = ["UTC", "America/New_York", "Asia/Tokyo", "Australia/Lord_Howe"]
 YEARS = [2019, 2020, 2021]
-RECLENS = [12, 24, 56]
+RECLENS = [12, 24, 56]                 # record lengths of the model (TLC integers are 32-bit: slots x length must fit)
+# record lengths given to the real functions: also wide records (600 bytes: an int64 product of the year in nanoseconds and the record
+# length overflows from 293 bytes on; 8200 = Epoch + 1024 columns of 8 bytes), judged by Python integers
+REAL_RECLENS = RECLENS + [600, 8200]
 HEADERSIZE = 37024
 DAY = 86400
 ALL_DEVS = ["DailyIndexFromZero", "DayCeilAdds24h", "WeekIsoWindow", "PrintDropsRemainder", "PrintNilAboveYear"]
@@ -127,7 +130,7 @@ def index_rows(case, tfsec, rng):
     """concrete timestamps of one TLC case: first second, last second (+ last nanosecond), a seeded instant inside,
     and the first second of the next interval"""
     p = case["p"]
-    rl = RECLENS[(case["k"] + case["y"]) % len(RECLENS)]
+    rl = REAL_RECLENS[(case["k"] + case["y"]) % len(REAL_RECLENS)]
     tfns = tfsec * 10 ** 9
     length = p["e1"] - p["s0"] + 1
     rows = [("s0", [tfns, BASE + p["s0"], 0, rl]), ("e1", [tfns, BASE + p["e1"], NS_EDGE, rl])]
@@ -264,7 +267,7 @@ def run_c30(res, tier, rng, binary, zones, tfs, known):
     res.cov["real_evaluations"] = sum(len(v) for v in real.values())
     res.assumptions += ["zone-offset table taken from Go's tz data (harness op ti_zones) for %s, %d-%d" % (", ".join(ZONES), YEARS[0], YEARS[-1]),
                         "timeframes = utils.Timeframes of the tree under test (%s)" % ", ".join(t["name"] for t in tfs),
-                        "record lengths %s" % RECLENS]
+                        "record lengths %s (model) / %s (real functions)" % (RECLENS, REAL_RECLENS)]
 
 
 # ------------------------------------------------------------------------------------------------------------
